@@ -8,4 +8,4 @@ for p in C01 C02 C03 C04 C05 C06 C07 C08 C09 C10 C11 C12 C13 C14 C15 C16 C17 C18
   if [ $rc -ne 0 ]; then bad=1; echo "--- $p exit=$rc"; echo "$o" | grep -E "violated|BROKEN|UNDECIDED" | cut -c1-300 | head -6; fi
 done
 [ $bad -eq 0 ] && echo "all 18 green"
-git -C "$W" checkout -q -- . ; rm -rf "$SCR"
+git -C "$W" apply -R "$D" 2>/dev/null; git -C "$W" checkout -q -- . ; rm -rf "$SCR"
